@@ -8,13 +8,10 @@ NOTES = ("Model-based verification with explicit TLA+ specifications (spec/), TL
          "only for executions of the real code rejected by the abstract specification and reproduced from "
          "their replay file; tool errors exit 2 with ERROR.")
 
-CHECKS = {
- "C07": {
-  "text": "TLC explores every interleaving of the detailed model of uring/ufifo/ulifo (one action per atomic operation and per plain ring-element access) for small client programs and checks linearization-point ghosts and structural invariants; the real ufifo/ulifo/upool are driven through the same yield points by a deterministic scheduler: preemption-bounded DFS, seeded random schedules, TLC-generated schedules in lock-step and counterexample schedules of known-bad model variants; every history (with a sequential probe epilogue) is judged by the abstract sequential specification Lin_Trace.tla (powerset linearizability).",
-  "note": "Sequentially consistent atomics; interleaving granularity = hooks H1+H2; no tag wrap within bounds; vsched coroutine scheduler and TLC trusted. DFS is complete only within the stated preemption bound.",
-  "technique": "TLA+ model checking (TLC) + schedule replay / trace validation against a linearizability spec",
- },
-}
+import json, os, glob
+CHECKS = {}
+for _f in sorted(glob.glob(os.path.join(os.path.dirname(os.path.dirname(os.path.abspath(__file__))), "manifest.d", "C*.json"))):
+    CHECKS[os.path.basename(_f)[:-5]] = json.load(open(_f))
 
 NOT_APPLICABLE = {
  "C01": "check not built yet (planned: Lifecycle.tla + replay_lifecycle); not claimed in this revision",
